@@ -727,8 +727,7 @@ def parse_stmt(c):
         rhs = expr(c)
         c.expect_sym(";")
         return ("assign", render(normalise(lhs, c.norm)), rhs)
-    if k == "kw" or True:
-        raise Unparsed("unexpected token at statement start", tok)
+    raise Unparsed("unexpected token at statement start", tok)
 
 
 def expr_from_ast(c, ast):
